@@ -49,6 +49,17 @@ func (ps *PubSub) Subscribe(_ context.Context, conn *net.Conn, channels []string
 		action = "psubscribe"
 	}
 
+	// subscriptionCount returns the number of channels and patterns the connection is subscribed to.
+	subscriptionCount := func() int {
+		count := 0
+		for _, channel := range ps.channels {
+			if _, ok := channel.Subscribers()[conn]; ok {
+				count += 1
+			}
+		}
+		return count
+	}
+
 	for i := 0; i < len(channels); i++ {
 		// Check if channel with given name exists
 		// If it does, subscribe the connection to the channel
@@ -67,14 +78,15 @@ func (ps *PubSub) Subscribe(_ context.Context, conn *net.Conn, channels []string
 			}
 			newChan.Start()
 			if newChan.Subscribe(conn) {
+				ps.channels = append(ps.channels, newChan)
+				// The confirmation carries the number of subscriptions the connection now holds.
 				if err := r.WriteArray([]resp.Value{
 					resp.StringValue(action),
 					resp.StringValue(newChan.name),
-					resp.IntegerValue(i + 1),
+					resp.IntegerValue(subscriptionCount()),
 				}); err != nil {
 					log.Println(err)
 				}
-				ps.channels = append(ps.channels, newChan)
 			}
 		} else {
 			// Subscribe to existing channel
@@ -82,7 +94,7 @@ func (ps *PubSub) Subscribe(_ context.Context, conn *net.Conn, channels []string
 				if err := r.WriteArray([]resp.Value{
 					resp.StringValue(action),
 					resp.StringValue(ps.channels[channelIdx].name),
-					resp.IntegerValue(i + 1),
+					resp.IntegerValue(subscriptionCount()),
 				}); err != nil {
 					log.Println(err)
 				}
